@@ -548,8 +548,8 @@ def run(chk):
                       "naming": tuple("s%02d" % k for k in range(n)) if naming == "list" else "conv"})
 
     # ---- bounded-exhaustive distributions and enumeration orders of valid traces
-    lim = chk.budget(10, None)
-    nperm = chk.budget(3, 24)
+    lim = chk.budget(10, 40)
+    nperm = chk.budget(3, 10)
     bases = []
     for si, skel in enumerate(shapes()):
         for rankmode in ("none", "rev", "fwd"):
@@ -576,7 +576,7 @@ def run(chk):
         # ---- every single contradiction, on the base and on one redistributed variant
         for m0 in ((base, variants[-1]) if chk.tier == "thorough" else (base,) if bi % 2 else (variants[-1],)):
             for (lab, m) in contradictions_of(m0):
-                for nm in (namings(len(m), r, 2)[1:] if chk.tier == "thorough" else [r.choice(namings(len(m), r, 3)[1:])]):
+                for nm in [r.choice(namings(len(m), r, 3)[1:])]:
                     cases.append({"kind": "contradiction", "label": lab, "streams": m, "naming": nm})
             for (lab, m) in illformed_of(m0):
                 cases.append({"kind": "illformed", "label": lab, "streams": m, "naming": namings(len(m), r, 1)[1]})
@@ -725,8 +725,8 @@ def run(chk):
     chk.coverage["traces_validated_against_impl"] = len(cases)
     chk.coverage["rule"] = ("skeletons of 2-4 threads in 1-2 processes x 1-2 looms (identifiers chosen so that numeric, strcmp and list "
                             "order differ); every placement of app_id / (rank,nranks) on a non-empty subset of a process's threads; every "
-                            "placement of ascending/descending sub-lists of loom_cpus on a loom's threads with complete union (quick: "
-                            "sampled down to a limit per skeleton, thorough: all); stream enumeration orders via directory names "
-                            "(all permutations up to the budget) plus the conventional loom.X/proc.P/thread.T names, directories created in "
+                            "placement of ascending/descending sub-lists of loom_cpus on a loom's threads with complete union (complete "
+                            "when there are at most 10 (quick) / 40 (thorough) per skeleton, else that many sampled); stream enumeration "
+                            "orders via directory names (up to 3 / 10 permutations) plus the conventional loom.X/proc.P/thread.T names, directories created in "
                             "shuffled order; every single contradiction at every carrier position; invalid-but-unlisted metadata; "
                             "rank ties. distinct = distinct (ordered metadata, directory naming)")
